@@ -76,7 +76,12 @@ impl<K: Ord + Clone, V: Clone> BPlusTreeMap<K, V> {
         // Optimize start bound resolution - eliminate redundant Option handling
         let (start_info, skip_first) = match range.start_bound() {
             Bound::Included(key) => (self.find_leaf_for_key(key), false),
-            Bound::Excluded(key) => (self.find_leaf_for_key(key), true),
+            // Skip the first yielded item only when it is the excluded key itself; when the
+            // key is absent the position already points at the first in-range entry.
+            Bound::Excluded(key) => match self.find_leaf_for_key_with_match(key) {
+                Some((leaf_id, index, matched)) => (Some((leaf_id, index)), matched),
+                None => (None, false),
+            },
             Bound::Unbounded => (self.get_first_leaf_id().map(|id| (id, 0)), false),
         };
 
